@@ -8,7 +8,8 @@ EXPLANATION = ("Decides on the MIR of the current tree (configurations with the 
                "notify and -1 handle; wake_by_ref: notify, +-0; drop: -1 - all through the modelled loom Arc (F2); block_on's Notify may spur "
                "once (W5 row) with the single-spurious discipline of Notify (W4); AtomicWaker::register / take_waker lock pairing on every "
                "path, the failed-registration path wakes the new waker itself and yields, wake() wakes only what take_waker returned (F3). "
-               "Absence of lost wake-ups over all interleavings is not decided.")
+               "Absence of lost wake-ups over all interleavings is not decided."
+               " Notify::wait consume/acquire pairing (W4); G0/G1 cross-check notify/wait.")
 RULE_TEXT = "rule instances = poll-loop paths, vtable entries, lock pairings; non-trivial when matched to concrete MIR sites"
 LEVEL_NOTE = "necessary conditions only; extracted only with feature `futures`"
 CONFIGS_QUICK = ["all"]
